@@ -44,9 +44,21 @@ let cmp_of = function
   | "eq" -> OEq | "ne" -> ONe | "lt" -> OLt | "le" -> OLe | "gt" -> OGt | "ge" -> OGe
   | h -> failwith ("bad comparison " ^ h)
 
-let rec parse_cons (s : string) : cons =
+(* and_all / or_all / all_of / any_of over a Vec<Constraint> (Model/Api.v c_and_all ..): None on an empty vector *)
+let rec parse_cons_opt (s : string) : cons option =
+  let s = String.trim s in
+  let list args = List.map parse_cons (List.filter (fun a -> String.trim a <> "") args) in
+  match head_args s with
+  | Some ("andall", args) -> c_and_all (list args)
+  | Some ("orall", args) -> c_or_all (list args)
+  | Some ("allof", args) -> c_all_of (list args)
+  | Some ("anyof", args) -> c_any_of (list args)
+  | _ -> Some (parse_cons s)
+and parse_cons (s : string) : cons =
   let s = String.trim s in
   match head_args s with
+  | Some (("andall" | "orall" | "allof" | "anyof"), _) ->
+    (match parse_cons_opt s with Some c -> c | None -> failwith "empty combinator nested in a tree")
   | Some ("and", [a; b]) -> CAnd (parse_cons a, parse_cons b)
   | Some ("or", [a; b]) -> COr (parse_cons a, parse_cons b)
   | Some ("not", [a]) -> CNot (parse_cons a)
@@ -67,9 +79,15 @@ let parse_decl (d : string) : stmt =
 let parse_decls (s : string) : stmt list =
   List.filter_map (fun d -> let d = String.trim d in if d = "" then None else Some (parse_decl d)) (String.split_on_char '|' s)
 
+(* `new <combinator>()`: the helper returned None, nothing is posted *)
+let empty_new (p : string) : bool =
+  match words p with
+  | ["new"; c] -> parse_cons_opt c = None
+  | _ -> false
+
 let parse_post (p : string) : stmt option =
   match words p with
-  | ["new"; c] -> Some (SNew (parse_cons c))
+  | ["new"; c] -> (match parse_cons_opt c with Some c -> Some (SNew c) | None -> None)
   | ["lin"; op; cs; xs; k] ->
     Some (SLin (cmp_of op, zlist (parse_list cs), (if xs = "-" then [] else List.map var_ix (String.split_on_char ',' xs)), z_of_int (int_of_string k)))
   | ["api"; f; x; y] ->
@@ -84,7 +102,7 @@ let parse_case (line : string) : case =
   | decls :: rest ->
     let posts = ref [] and entry = ref ["enum"] in
     List.iter (fun p ->
-      if p <> "" then
+      if p <> "" && not (empty_new p) then
         match parse_post p with
         | Some s -> posts := s :: !posts
         | None ->
